@@ -131,7 +131,7 @@ fn run_onehop(b: &[u8], sum: &mut Summary) -> Option<String> {
 }
 
 fn main() {
-    silence_panics();
+    if std::env::var("VERIF_DEBUG").is_err() { silence_panics(); }
     let out = arg("--out").expect("--out dir");
     let n: usize = arg("--n").and_then(|s| s.parse().ok()).unwrap_or(300);
     let tier = std::env::var("VERIF_TIER").unwrap_or_else(|_| "quick".into());
